@@ -1,6 +1,7 @@
 import Driver.Util
 import Paroxy.Model.MakeDb
 import Paroxy.Spec.MakeDb
+import Paroxy.Model.JsonText
 open Lean Paroxy Paroxy.DB
 
 namespace Driver.C11
@@ -169,10 +170,64 @@ def lineNumbers : Handler := fun j => do
   let s ← getName (← j.getObjVal? "source")
   pure (Json.mkObj [("r", jName (addLineNumbers s))])
 
+
+/-! ### The JSON text layer (Model/JsonText.lean). Wire encoding of a `J` value (order preserving, code points so
+that lone surrogates travel): number | {"s":[code points]} | {"a":[values]} | {"o":[[[code points], value], …]}. -/
+
+def natList (j : Json) : Except String (List Nat) := do
+  let a ← j.getArr?
+  a.toList.mapM fun x => x.getNat?
+
+partial def getJ (j : Json) : Except String JsonText.J := do
+  match j with
+  | .num _ => pure (.num (← j.getNat?))
+  | _ =>
+    match j.getObjVal? "s" with
+    | .ok s => pure (.str (← natList s))
+    | .error _ =>
+      match j.getObjVal? "a" with
+      | .ok a => do
+        let l ← (← a.getArr?).toList.mapM getJ
+        pure (.arr l)
+      | .error _ => do
+        let o ← (← j.getObjVal? "o").getArr?
+        let l ← o.toList.mapM fun kv => do
+          match (← kv.getArr?).toList with
+          | [k, v] => do pure ((← natList k), (← getJ v))
+          | _ => throw "member must be [key, value]"
+        pure (.obj l)
+
+def jNats (l : List Nat) : Json := Json.arr (l.map fun n => Json.num (JsonNumber.fromNat n)).toArray
+
+partial def putJ : JsonText.J → Json
+  | .num n => Json.num (JsonNumber.fromNat n)
+  | .str s => Json.mkObj [("s", jNats s)]
+  | .arr l => Json.mkObj [("a", Json.arr (l.map putJ).toArray)]
+  | .obj l => Json.mkObj [("o", Json.arr (l.map fun kv => Json.arr #[jNats kv.1, putJ kv.2]).toArray)]
+
+/-- `c11.dumps`: `dumps` = `json.dumps(v, indent=2)`, `text` = what `get_json` returns for the data `v`,
+`ok` = the hypothesis of the round-trip theorem, `back` = `loads text == v`. -/
+def dumpsH : Handler := fun j => do
+  let v ← getJ (← j.getObjVal? "v")
+  let text := JsonText.getJsonText v
+  pure (Json.mkObj [("dumps", jNats (JsonText.dumps2 v)), ("text", jNats text),
+    ("ok", Json.bool (JsonText.J.ok v)), ("back", Json.bool (JsonText.loadsIs text v))])
+
+/-- `c11.compact`: the `regex.sub` of `get_json` on an arbitrary text. -/
+def compactH : Handler := fun j => do
+  let t ← natList (← j.getObjVal? "t")
+  pure (Json.mkObj [("r", jNats (JsonText.compact t))])
+
+/-- `c11.loads`: the model's parser; `v` is null when the text is rejected. -/
+def loadsH : Handler := fun j => do
+  let t ← natList (← j.getObjVal? "t")
+  pure (Json.mkObj [("v", match JsonText.loads t with | some v => putJ v | none => Json.null)])
+
 def handlers : List (String × Handler) :=
   [("c11.model", model), ("c11.spec", spec), ("c11.closure", closure),
    ("c11.spec_closure", specClosure), ("c11.exportations", exportationsH),
    ("c11.spec_exportations", specExportationsH), ("c11.relabel", relabelH),
-   ("c11.prepared", preparedH), ("c11.prepared_taxa", preparedTaxaH), ("c11.collect", collectH), ("c11.collect_labels", collectLabelsH), ("c11.line_numbers", lineNumbers)]
+   ("c11.prepared", preparedH), ("c11.prepared_taxa", preparedTaxaH), ("c11.collect", collectH), ("c11.collect_labels", collectLabelsH), ("c11.line_numbers", lineNumbers),
+   ("c11.dumps", dumpsH), ("c11.compact", compactH), ("c11.loads", loadsH)]
 
 end Driver.C11
